@@ -3,6 +3,7 @@ package blk
 import (
 	"context"
 	"fmt"
+	"sort"
 	"sync"
 	"testing"
 	"time"
@@ -292,7 +293,7 @@ func TestProp_C04_direct(t *testing.T) {
 // ---------------------------------------------------------------------------------------------
 // the same through the node-side block handler and a scripted peer
 
-const ruleNode = "the same generated blocks and corruptions delivered as a block message (classic or extended framing) by a scripted peer to a verified real BitcoinNode that requested the block with BlockDownloader.HandleBlock as handler (stream cut = peer closes mid-block); same oracle; non-trivial as above; distinct = (tx count, corruption, framing)"
+const ruleNode = "the same generated blocks and corruptions delivered as a block message (classic or extended framing) by a scripted peer to a verified real BitcoinNode that requested the block with BlockDownloader.HandleBlock as handler (stream cut = peer closes mid-block), the peer's writes splitting the message at 0..3 drawn byte offsets (inside the frame header, inside the 80-byte block header, right after it, anywhere); same oracle; non-trivial as above or a split message; distinct = (tx count, corruption, framing, number of splits)"
 
 func TestProp_C04_node(t *testing.T) {
 	col := evid.For("C04", "node", ruleNode)
@@ -318,14 +319,45 @@ func TestProp_C04_node(t *testing.T) {
 		}
 		extended := rapid.Bool().Draw(t, "extended")
 		frame := p2p.Block(c.sent, c.delivered, c.announced, extended)
+		// the peer's writes split the message at 0..3 drawn byte offsets (inside the frame header,
+		// inside the 80-byte block header, right after it, anywhere), as TCP segments do
+		enc := p2p.Encode(frame)
+		hdrAt := len(enc) - len(frame.Payload)
+		cutSet := map[int]bool{}
+		for i := rapid.IntRange(0, 3).Draw(t, "splits"); i > 0; i-- {
+			var at int
+			switch rapid.SampledFrom([]string{"blockheader", "blockheader", "frameheader", "afterheader", "any", "any"}).Draw(t, "splitKind") {
+			case "blockheader":
+				at = hdrAt + rapid.IntRange(1, 79).Draw(t, "splitAt")
+			case "frameheader":
+				at = rapid.IntRange(1, hdrAt).Draw(t, "splitAt")
+			case "afterheader":
+				at = hdrAt + 80 + rapid.IntRange(0, 1).Draw(t, "splitAt")
+			default:
+				at = rapid.IntRange(1, len(enc)-1).Draw(t, "splitAt")
+			}
+			if at > 0 && at < len(enc) {
+				cutSet[at] = true
+			}
+		}
+		var cutList []int
+		for at := range cutSet {
+			cutList = append(cutList, at)
+		}
+		sort.Ints(cutList)
+		prev := 0
+		for _, at := range append(cutList, len(enc)) {
+			if prev > 0 {
+				time.Sleep(time.Millisecond) // let the node read the piece before the next arrives
+			}
+			s.Peer.SendRaw(enc[prev:at])
+			prev = at
+		}
 		if c.corrupt == "cut" || uint64(len(c.delivered)) < c.announced {
 			// fewer transactions than announced: the declared frame length still covers only what
 			// is sent, then the peer goes away (a frame cannot be shorter than it declares)
-			s.Peer.Send(frame)
 			time.Sleep(2 * time.Millisecond)
 			s.Peer.Close()
-		} else {
-			s.Peer.Send(frame)
 		}
 		var completeErr error
 		got := false
@@ -362,8 +394,11 @@ func TestProp_C04_node(t *testing.T) {
 			}
 			verifyOutcome(t, c, log, requested, completeErr, got)
 		}
-		k.Op("n=%d corrupt=%s ext=%v", len(c.txs), c.corrupt, extended)
-		k.NonTrivial = c.corrupt != "none"
+		k.Op("n=%d corrupt=%s ext=%v splits=%d", len(c.txs), c.corrupt, extended, len(cutList))
+		if len(cutList) > 0 {
+			k.Class("split-writes")
+		}
+		k.NonTrivial = c.corrupt != "none" || len(cutList) > 0
 		k.Done()
 	})
 }
